@@ -69,7 +69,8 @@ fn spawn_worker(
     if let Some(l) = opts.limit {
         cmd.arg("--limit").arg(l.to_string());
     }
-    cmd.stdin(Stdio::null())
+    cmd.env("RUST_BACKTRACE", "0")
+        .stdin(Stdio::null())
         .stdout(Stdio::piped())
         .stderr(Stdio::piped());
     let mut child = cmd.spawn()?;
@@ -199,6 +200,7 @@ pub fn exec_plan(check: &dyn Check, plan: &Value, scratch: &Path) -> ExecResult 
         .arg("exec")
         .arg(check.id())
         .arg(&path)
+        .env("RUST_BACKTRACE", "0")
         .stdin(Stdio::null())
         .stdout(Stdio::piped())
         .stderr(Stdio::piped())
